@@ -444,7 +444,7 @@ Qed.
 (* ====================================================================== *)
 
 (* the map id a data index ends up with: the LAST group containing it wins *)
-Fixpoint chosen (gm : list (list nat * nat)) (p : nat) : option nat :=
+Fixpoint chosen {M} (gm : list (list nat * M)) (p : nat) : option M :=
   match gm with
   | [] => None
   | (g, m) :: r => match chosen r p with
@@ -453,19 +453,19 @@ Fixpoint chosen (gm : list (list nat * nat)) (p : nat) : option nat :=
                    end
   end.
 
-Definition assign_gm (c : circ) (gm : list (list nat * nat)) : circ :=
-  mapi_from 0 (fun p ins => match chosen gm p with Some m => set_bid m ins | None => ins end) c.
+Definition assign_gm (c : circ) (gm : list (list nat * Z)) : circ :=
+  mapi_from 0 (fun p ins => match chosen gm p with Some m => set_bid (Z.to_nat m) ins | None => ins end) c.
 
-Definition assign (c : circ) (ids : list (list nat)) (maps : option (list nat)) : circ :=
+Definition assign (c : circ) (ids : list (list nat)) (maps : option (list Z)) : circ :=
   match maps with None => c | Some ms => assign_gm c (combine ids ms) end.
 
 Definition setg (g : list nat) (m : nat) (c : circ) : circ :=
   mapi_from 0 (fun p ins => if existsb (Nat.eqb p) g then set_bid m ins else ins) c.
 
-Definition in_range_b (env : benv) (c : circ) (p m : nat) : bool :=
+Definition in_range_b (env : benv) (c : circ) (p : nat) (m : Z) : bool :=
   match nth_error c p with
   | Some ins => match basis_of ins with
-                | Some b => Nat.ltb m (length (nth b env []))
+                | Some b => (Z.leb 0 m && Z.ltb m (Z.of_nat (length (nth b env []))))%bool
                 | None => false
                 end
   | None => false
@@ -511,30 +511,30 @@ Proof.
     destruct (Nat.eqb_spec n p); [congruence|]. reflexivity.
 Qed.
 
-Lemma assign_group_char env m : forall g c,
+Lemma assign_group_char env (m : Z) : forall g c,
   (forall p, In p g -> exists b, placeholder_with c b p) ->
   assign_group env c g m =
-    if forallb (fun p => in_range_b env c p m) g then Ok (setg g m c) else Refused.
+    if forallb (fun p => in_range_b env c p m) g then Ok (setg g (Z.to_nat m) c) else Refused.
 Proof.
   induction g as [|p r IH]; intros c H; simpl.
   - unfold setg. rewrite mapi_id; auto.
   - destruct (H p (or_introl eq_refl)) as (b & ins & Hp & Hb).
     unfold assign1, in_range_b at 1. rewrite Hp, Hb.
-    destruct (Nat.ltb m (length (nth b env []))); simpl; [|reflexivity].
-    assert (Hk : forall q, option_map basis_of (nth_error (upd c p (set_bid m ins)) q) = option_map basis_of (nth_error c q)).
+    destruct (Z.leb 0 m && Z.ltb m (Z.of_nat (length (nth b env []))))%bool; simpl; [|reflexivity].
+    assert (Hk : forall q, option_map basis_of (nth_error (upd c p (set_bid (Z.to_nat m) ins)) q) = option_map basis_of (nth_error c q)).
     { intros q. destruct (Nat.eq_dec p q) as [->|Hne].
       - rewrite nth_error_upd_same by (apply nth_error_Some; congruence). rewrite Hp; simpl. now rewrite basis_of_set_bid.
       - now rewrite nth_error_upd_other. }
     rewrite IH.
     + rewrite (forallb_ext _ (fun q => in_range_b env c q m)) by (intros q; apply in_range_b_ext, Hk).
-      now rewrite (setg_cons p r m c ins Hp).
+      now rewrite (setg_cons p r (Z.to_nat m) c ins Hp).
     + intros q Hq. destruct (H q (or_intror Hq)) as (b' & i' & Hq1 & Hq2).
       exists b'. unfold placeholder_with. specialize (Hk q). rewrite Hq1 in Hk. simpl in Hk.
-      destruct (nth_error (upd c p (set_bid m ins)) q) as [i2|]; [|discriminate].
+      destruct (nth_error (upd c p (set_bid (Z.to_nat m) ins)) q) as [i2|]; [|discriminate].
       exists i2. split; [reflexivity|]. simpl in Hk. congruence.
 Qed.
 
-Lemma assign_gm_cons g m r c : assign_gm (setg g m c) r = assign_gm c ((g, m) :: r).
+Lemma assign_gm_cons g (m : Z) r c : assign_gm (setg g (Z.to_nat m) c) r = assign_gm c ((g, m) :: r).
 Proof.
   apply nth_error_ext. intros n. unfold assign_gm, setg. rewrite !nth_error_mapi. simpl.
   destruct (nth_error c n) as [i|]; simpl; [|reflexivity].
@@ -543,7 +543,7 @@ Proof.
   - destruct (existsb (Nat.eqb n) g); reflexivity.
 Qed.
 
-Definition maps_in_range (env : benv) (c : circ) (gm : list (list nat * nat)) : bool :=
+Definition maps_in_range (env : benv) (c : circ) (gm : list (list nat * Z)) : bool :=
   forallb (fun x => forallb (fun p => in_range_b env c p (snd x)) (fst x)) gm.
 
 Lemma assign_loop_char env : forall gm c,
@@ -554,7 +554,7 @@ Proof.
   - unfold assign_gm. rewrite mapi_id; auto.
   - rewrite assign_group_char by (intros p Hp; apply (H g m p); [now left|assumption]).
     destruct (forallb (fun p => in_range_b env c p m) g); simpl; [|reflexivity].
-    assert (Hk : forall q, option_map basis_of (nth_error (setg g m c) q) = option_map basis_of (nth_error c q)).
+    assert (Hk : forall q, option_map basis_of (nth_error (setg g (Z.to_nat m) c) q) = option_map basis_of (nth_error c q)).
     { intros q. unfold setg. rewrite nth_error_mapi. destruct (nth_error c q); simpl; [|reflexivity].
       destruct (existsb _ g); [now rewrite basis_of_set_bid|reflexivity]. }
     rewrite IH.
@@ -564,11 +564,11 @@ Proof.
       * intros x. apply forallb_ext. intros q. apply in_range_b_ext, Hk.
     + intros g' m' p Hin Hp. destruct (H g' m' p (or_intror Hin) Hp) as (b' & i' & Hq1 & Hq2).
       exists b'. unfold placeholder_with. specialize (Hk p). rewrite Hq1 in Hk. simpl in Hk.
-      destruct (nth_error (setg g m c) p) as [i2|]; [|discriminate].
+      destruct (nth_error (setg g (Z.to_nat m) c) p) as [i2|]; [|discriminate].
       exists i2. split; [reflexivity|]. simpl in Hk. congruence.
 Qed.
 
-Lemma chosen_none gm p : ~ In p (concat (map fst gm)) -> chosen gm p = None.
+Lemma chosen_none {M} (gm : list (list nat * M)) p : ~ In p (concat (map fst gm)) -> chosen gm p = None.
 Proof.
   induction gm as [|[g m] r IH]; simpl; intros H; [reflexivity|].
   rewrite IH by (intros Hr; apply H, in_or_app; now right).
@@ -588,7 +588,7 @@ Lemma NoDup_app_tail {A} (a b : list A) : NoDup (a ++ b) -> NoDup b.
 Proof. induction a as [|y a IH]; simpl; intros H; [assumption|]. inversion H; auto. Qed.
 
 (* with pairwise disjoint groups, "last group containing p" is "the group containing p" *)
-Lemma chosen_unique gm g m p :
+Lemma chosen_unique {M} (gm : list (list nat * M)) g m p :
   NoDup (concat (map fst gm)) -> In (g, m) gm -> In p g -> chosen gm p = Some m.
 Proof.
   induction gm as [|[g0 m0] r IH]; simpl; intros Hd Hin Hp; [contradiction|].
@@ -775,7 +775,7 @@ Definition valid_grouping (c : circ) (ids : list (list nat)) : Prop :=
   (forall g p, In g ids -> In p g -> qpd2_at c p -> length g = 1).  (* a two-qubit placeholder is a decomposition of its own *)
 
 (* ... together with an in-range map choice per decomposition *)
-Definition valid (env : benv) (c : circ) (ids : list (list nat)) (ms : list nat) : Prop :=
+Definition valid (env : benv) (c : circ) (ids : list (list nat)) (ms : list Z) : Prop :=
   valid_grouping c ids /\
   length ms = length ids /\
   (forall g m p, In (g, m) (combine ids ms) -> In p g -> in_range_b env c p m = true).
@@ -814,7 +814,7 @@ Proof.
   now rewrite decompose_measurements_spec.
 Qed.
 
-Lemma valid_members_placeholders c ids (ms : list nat) :
+Lemma valid_members_placeholders c ids (ms : list Z) :
   Forall (good_group c) ids ->
   forall g m p, In (g, m) (combine ids ms) -> In p g -> exists b, placeholder_with c b p.
 Proof.
@@ -860,8 +860,9 @@ Proof.
     destruct (in_combine_exists ids ms g (eq_sym Hl) Hgi) as (m & Hgm).
     rewrite (chosen_unique (combine ids ms) g m n); auto.
     + specialize (Hr g m n Hgm Hng). unfold in_range_b in Hr. rewrite Hn in Hr.
-      destruct (basis_of x) as [b|] eqn:Eb; [|discriminate]. apply Nat.ltb_lt in Hr.
-      now apply (goodb_set_bid env m x b).
+      destruct (basis_of x) as [b|] eqn:Eb; [|discriminate].
+      apply andb_prop in Hr as [Hr1 Hr2]. apply Z.leb_le in Hr1. apply Z.ltb_lt in Hr2.
+      apply (goodb_set_bid env (Z.to_nat m) x b); [exact Eb|unfold benv, basis in *; lia].
     + rewrite map_fst_combine by auto. exact Hd.
   - destruct (chosen (combine ids ms) n); [rewrite set_bid_other by assumption|]; now apply goodb_other.
 Qed.
@@ -897,7 +898,7 @@ Qed.
 (* the assignment, pointwise *)
 Lemma assign_member env c ids ms g m p x :
   valid env c ids ms -> In (g, m) (combine ids ms) -> In p g -> nth_error c p = Some x ->
-  nth_error (assign c ids (Some ms)) p = Some (set_bid m x).
+  nth_error (assign c ids (Some ms)) p = Some (set_bid (Z.to_nat m) x).
 Proof.
   intros ((Hv & Hd & H2) & Hl & Hr) Hgm Hp Hx.
   unfold assign, assign_gm. rewrite nth_error_mapi, Hx. simpl.
@@ -1141,7 +1142,7 @@ Definition groupingb (c : circ) (ids : list (list nat)) : bool :=
   nodupb (concat ids) &&
   forallb (fun g => forallb (fun p => implb (qpd2_atb c p) (Nat.eqb (length g) 1)) g) ids.
 
-Definition validb (env : benv) (c : circ) (ids : list (list nat)) (ms : list nat) : bool :=
+Definition validb (env : benv) (c : circ) (ids : list (list nat)) (ms : list Z) : bool :=
   groupingb c ids && Nat.eqb (length ms) (length ids) && maps_in_range env c (combine ids ms).
 
 Lemma groupingb_sound c ids : groupingb c ids = true -> valid_grouping c ids.
